@@ -105,10 +105,14 @@ def pscript : P Script := do
     pure { ops := ops, reject := some { code := codeFromI32 code, message := msg, details := details, metadata := md } }
   else failure
 
-/-- the wrapped service's scripted answer -/
-abbrev RespScript := Except Nat (Response Body)
+/-- the wrapped service's response body: scripted frames plus the hint mode (`!h<m>`, async kind) that says how
+its `size_hint` / `is_end_stream` answer -/
+abbrev RB := Body × Nat
 
-def presp : P RespScript := do
+/-- the wrapped service's scripted answer -/
+abbrev RespScript := Except Nat (Response RB)
+
+def presp (hint : Nat) : P RespScript := do
   let t ← next
   if t == "e" then do
     let n ← pnat
@@ -119,35 +123,51 @@ def presp : P RespScript := do
     let h ← phdrs
     let x ← pext
     let b ← pbody
-    pure (.ok { status := status, version := version, headers := h, ext := x, body := b })
+    pure (.ok { status := status, version := version, headers := h, ext := x, body := (b, hint) })
   else failure
 
 /-- The body type the model is instantiated with: the request body proper plus the scripted
 answer travelling with it (the model cannot look inside `β`). -/
 abbrev B := Body × RespScript
 
-/-- optional readiness marker before a call: `!p` pending, `!e<n>` error n -/
-def pready : P (Poll Nat) := do
+/-- optional markers before a call: `!p` pending, `!e<n>` error n (readiness of the wrapped service); async kind:
+`!h<m>` hint mode of the wrapped service's response body, `!d<k>` / `!w<k>` (the wrapped future / body stays
+`Pending` k times) and `!l` (future polled after all calls were made) — the last three are parsed and IGNORED:
+the prediction does not depend on them (`C12_future_resolves_to_call`, `C12_poll_order_invisible`). -/
+def pmarks : Nat → Poll Nat → Nat → P (Poll Nat × Nat)
+  | 0, rd, hint => pure (rd, hint)
+  | fuel + 1, rd, hint => do
   let ts ← get
   match ts with
   | t :: _ =>
-    if t == "!p" then do let _ ← next; pure .pending
+    if t == "!p" then do let _ ← next; pmarks fuel .pending hint
+    else if t == "!l" then do let _ ← next; pmarks fuel rd hint
     else if t.startsWith "!e" then do
       let _ ← next
       match (t.drop 2).toNat? with
-      | some n => pure (.err n)
+      | some n => pmarks fuel (.err n) hint
       | none => failure
-    else pure .ready
-  | [] => pure .ready
+    else if t.startsWith "!d" || t.startsWith "!w" then do
+      let _ ← next
+      match (t.drop 2).toNat? with
+      | some _ => pmarks fuel rd hint
+      | none => failure
+    else if t.startsWith "!h" then do
+      let _ ← next
+      match (t.drop 2).toNat? with
+      | some n => if n ≤ 4 then pmarks fuel rd n else failure
+      | none => failure
+    else pure (rd, hint)
+  | [] => pure (rd, hint)
 
-def pcall : P (Request B) := do
+def pcall (hint : Nat) : P (Request B) := do
   let method ← pbytes
   let version ← pnat
   let uri ← pbytes
   let h ← phdrs
   let x ← pext
   let b ← pbody
-  let r ← presp
+  let r ← presp hint
   pure { method := method, version := version, uri := uri, headers := h, ext := x, body := (b, r) }
 
 structure Case where
@@ -163,8 +183,8 @@ def pcase : P Case := do
   let scripts ← rep pscript ns
   let nc ← pnat
   let calls ← rep (do
-    let r ← pready
-    let c ← pcall
+    let (r, hint) ← pmarks 8 .ready 0
+    let c ← pcall hint
     pure (r, c)) nc
   pure { scripts := scripts, calls := calls.map (·.2), readiness := calls.map (·.1) }
 
@@ -196,23 +216,35 @@ def showStatus (st : GStatus) : String :=
 def bodyEos (b : Body) : Bool := b.chunks.isEmpty && b.trailers.isNone
 def bodySize (b : Body) : Nat := (b.chunks.map List.length).foldl (· + ·) 0
 
-def showOutcome : Outcome Body Nat → Option String
+/-- the wrapped body's own hints, by hint mode (harness/src/c12_x.rs `HintBody`): 0 exact and truthful; 1 lower bound
+only; 2 nothing known, never "end"; 3 upper bound only; 4 exact, never "end" -/
+def innerEos (b : RB) : Bool := if b.2 == 2 || b.2 == 4 then false else bodyEos b.1
+def innerHint (b : RB) : Nat × Option Nat :=
+  let sz := bodySize b.1
+  if b.2 == 1 then (sz, none) else if b.2 == 2 then (0, none) else if b.2 == 3 then (0, some (sz + 7))
+  else (sz, some sz)
+
+def optTok : Option Nat → String
+  | none => "none"
+  | some n => toString n
+
+def showOutcome : Outcome RB Nat → Option String
   | .panic => none
   | .error n => some s!"outerr {n}"
   | .response r =>
-    let eos := RespBody.isEndStream bodyEos r.body
-    let sz := RespBody.sizeHint bodySize r.body
-    some s!"out {r.status} {r.version} {showHdrs r.headers} {showExt r.ext} {flagTok eos} {sz} {sz} {showBody (RespBody.frames id r.body)}"
+    let eos := RespBody.isEndStream innerEos r.body
+    let sz := RespBody.sizeHintRange innerHint r.body
+    some s!"out {r.status} {r.version} {showHdrs r.headers} {showExt r.ext} {flagTok eos} {sz.1} {optTok sz.2} {showBody (RespBody.frames (·.1) r.body)}"
 
 def showSaw : Option (Request B) → String
   | none => "noinner"
   | some r => s!"inner {hex r.method} {r.version} {hex r.uri} {showHdrs r.headers} {showExt r.ext} {showBody r.body.1}"
 
 /-- the scripted wrapped service: counts invocations, answers with the script carried in the body -/
-def recorder : Inner Nat B Body Nat := fun n r => (n + 1, r.body.2)
+def recorder : Inner Nat B RB Nat := fun n r => (n + 1, r.body.2)
 
 def callLine (l : (Hdrs × Ext) × Except GStatus (Hdrs × Ext)) (saw : Option (Request B))
-    (out : Outcome Body Nat) : Option String :=
+    (out : Outcome RB Nat) : Option String :=
   let isaw := s!"isaw {showHdrs l.1.1} {showExt l.1.2}"
   let dec := match l.2 with
     | .ok (md, x) => s!"iret {showHdrs md} {showExt x}"
@@ -253,6 +285,24 @@ def runModel (c : Case) : String :=
     match showOutcome res.2 with
     | none => none
     | some o => some s!"{isaw} {dec} {showSaw res.1} {o}")
+  if lines.any Option.isNone then "panic"
+  else String.intercalate " " (lines.filterMap id ++ [s!"calls {ncalls}"])
+
+/-- gsrv kind (`HealthServer::with_interceptor`): the wrapped service is the generated server; what is observed is its
+HANDLER: `Request::from_http` of the request the wrapped service was handed (`C12_handler_view`), the message being the
+body's frames in one piece; the generated server's own answer is not predicted (`gaccepted`). -/
+def runGsrvModel (c : Case) : String :=
+  let (st, ncalls, results) := runCalls (logged (scripted c.scripts)) recorder (0, []) 0 c.calls
+  let lines := (st.2.zip results).map (fun (l, res) =>
+    let isaw := s!"isaw {showHdrs l.1.1} {showExt l.1.2}"
+    let dec := match l.2 with
+      | .ok (md, x) => s!"iret {showHdrs md} {showExt x}"
+      | .error st => s!"irej {showStatus st}"
+    match res.1 with
+    | some r =>
+      let t := fromHttp r
+      some s!"{isaw} {dec} handler {showHdrs t.metadata} {showExt t.extensions} 1 {hex t.message.1.chunks.flatten} notr gaccepted"
+    | none => (showOutcome res.2).map (fun o => s!"{isaw} {dec} nohandler {o}"))
   if lines.any Option.isNone then "panic"
   else String.intercalate " " (lines.filterMap id ++ [s!"calls {ncalls}"])
 
@@ -301,14 +351,26 @@ structure ObsCall where
   iretXTotal : Nat
   saw : Option (Request Body × Nat)
   out : Except Nat ObsOut
+  /-- async kind: the response future (or the body) returned `Pending` without waking the caller / never finished -/
+  hung : Bool := false
+  /-- `false`: the observation of this call does not start with `isaw` — the interceptor was not run -/
+  invoked : Bool := true
+  /-- gsrv kind: `saw` is the HANDLER's view (`tonic::Request` metadata / extensions / message); method, version and
+  URI are not observable there -/
+  handlerView : Bool := false
+  /-- gsrv kind: the call was accepted and the generated server answered (its answer is not part of the tie) -/
+  gaccepted : Bool := false
 
 def ocall : P ObsCall := do
-  let t ← next
-  if t != "isaw" then failure
-  let ih ← ohdrs
-  let ix ← oext
-  let t ← next
-  let (dec, tot) ← (if t == "iret" then do
+  let ts ← get
+  let invoked := match ts with
+    | t :: _ => t == "isaw"
+    | [] => false
+  let ih ← (if invoked then do let _ ← next; ohdrs else pure [] : P Hdrs)
+  let ix ← (if invoked then oext else pure (0, []) : P (Nat × Ext))
+  let t ← (if invoked then next else pure "iret-missing" : P String)
+  let (dec, tot) ← (if !invoked then pure (Spec.Interceptor.Decision.accept [] [], 0)
+    else if t == "iret" then do
       let h ← ohdrs
       let x ← oext
       pure (Spec.Interceptor.Decision.accept h x.2, x.1)
@@ -320,7 +382,8 @@ def ocall : P ObsCall := do
       pure (Spec.Interceptor.Decision.reject { code := code, message := msg, details := det, metadata := md }, 0)
     else failure : P (Spec.Interceptor.Decision × Nat))
   let t ← next
-  let saw ← (if t == "noinner" then pure none
+  let handlerView := t == "handler" || t == "nohandler"
+  let saw ← (if t == "noinner" || t == "nohandler" then pure none
     else if t == "inner" then do
       let m ← pbytes
       let v ← pnat
@@ -329,8 +392,21 @@ def ocall : P ObsCall := do
       let x ← oext
       let b ← obody
       pure (some ({ method := m, version := v, uri := u, headers := h, ext := x.2, body := b }, x.1))
+    else if t == "handler" then do
+      let h ← ohdrs
+      let x ← oext
+      let b ← obody
+      pure (some ({ method := [], version := 0, uri := [], headers := h, ext := x.2, body := b }, x.1))
     else failure : P (Option (Request Body × Nat)))
   let t ← next
+  if t == "gaccepted" then
+    return { isawH := ih, isawX := ix, decision := dec, iretXTotal := tot, saw := saw, out := .error 0, invoked := invoked,
+             handlerView := handlerView, gaccepted := true }
+  -- async kind: `pendings n` = the response future was `Pending` n times where the wrapped future's own count says
+  -- otherwise (not a clause: the model never prints it, so it shows as a correspondence disagreement)
+  let t ← (if t == "pendings" then do let _ ← pnat; next else pure t : P String)
+  if t == "out-hang" || t == "out-busy-loop" then
+    return { isawH := ih, isawX := ix, decision := dec, iretXTotal := tot, saw := saw, out := .error 0, hung := true, invoked := invoked, handlerView := handlerView }
   let out ← (if t == "outerr" then do
       let n ← pnat
       pure (.error n)
@@ -349,7 +425,12 @@ def ocall : P ObsCall := do
       pure (.ok { resp := { status := status, version := version, headers := h, ext := x.2, body := b },
                   extTotal := x.1, eos := eos, lo := lo, hi := hi })
     else failure : P (Except Nat ObsOut))
-  pure { isawH := ih, isawX := ix, decision := dec, iretXTotal := tot, saw := saw, out := out }
+  -- a body that stalled (`body-hang` / `body-busy-loop` after the frames): the caller never gets the rest
+  let ts ← get
+  let stalled ← (match ts with
+    | t :: _ => if t == "body-hang" || t == "body-busy-loop" then do let _ ← next; pure true else pure false
+    | [] => pure false : P Bool)
+  pure { isawH := ih, isawX := ix, decision := dec, iretXTotal := tot, saw := saw, out := out, hung := stalled, invoked := invoked, handlerView := handlerView }
 
 def pobs (n : Nat) : P (List ObsCall × Nat) := do
   let cs ← rep ocall n
@@ -366,38 +447,48 @@ def frameCount (b : Body) : Nat := b.chunks.length + (if b.trailers.isSome then 
 /-- spec clauses for one call: `req` and `script` come from the case, everything else from the
 observation of the real code -/
 def callClauses (req : Request B) (script : Option Script) (o : ObsCall) : List (String × Bool) :=
+  if !o.invoked then [("interceptor-is-run-on-every-call", false)] else
   let input : List (String × Bool) :=
-    [("interceptor-sees-request-metadata", Spec.Interceptor.hdrsEq o.isawH req.headers),
+    [("response-future-and-body-complete", !o.hung),
+     ("interceptor-sees-request-metadata", Spec.Interceptor.hdrsEq o.isawH req.headers),
      ("interceptor-sees-request-extensions",
         Spec.Interceptor.extEq o.isawX.2 req.ext && o.isawX.1 == req.ext.length)]
   match o.decision with
   | .accept md ext =>
+    -- the handler of a generated server is given the MESSAGE: the frames of the body in one piece
     let req' : Request Body := { method := req.method, version := req.version, uri := req.uri,
-                                 headers := req.headers, ext := req.ext, body := canonBody req.body.1 }
+                                 headers := req.headers, ext := req.ext,
+                                 body := if o.handlerView then { chunks := [req.body.1.chunks.flatten], trailers := none }
+                                         else canonBody req.body.1 }
     let touched : Bytes → Bool := fun k => match script with
       | none => false
       | some sc => sc.ops.any (Op.mentions k)
     let sawH : Hdrs := match o.saw with
       | some (r, _) => r.headers
       | none => []
-    let acc := Spec.Interceptor.acceptClauses req' md ext (o.saw.map (·.1))
+    -- (handler view: method / version / URI are not observable, those three clauses are fed the request's own)
+    let acc := Spec.Interceptor.acceptClauses req' md ext (o.saw.map (fun p =>
+      if o.handlerView then { p.1 with method := req.method, version := req.version, uri := req.uri } else p.1))
     let frame := [("untouched-headers-intact", Spec.Interceptor.untouchedOk touched req.headers sawH),
                   ("no-foreign-extensions", match o.saw with
                      | some (_, total) => total == o.iretXTotal
                      | none => false)]
-    let resp : List (String × Bool) := match req.body.2, o.out with
+    let resp : List (String × Bool) := if o.gaccepted then [] else match req.body.2, o.out with
       | .error n, .error m => [("inner-error-passed-through", n == m)]
       | .ok r, .ok oo =>
-        Spec.Interceptor.passClauses { r with body := canonBody r.body } oo.resp ++
+        Spec.Interceptor.passClauses
+          ({ status := r.status, version := r.version, headers := r.headers, ext := r.ext, body := canonBody r.body.1 } : Response Body)
+          oo.resp ++
         [("response-no-foreign-extensions", oo.extTotal == r.ext.length),
          -- `size_hint` is compared model-vs-observed only (a different hint on the same body is not a
-         -- violation of the property); `is_end_stream` is part of the verdict because hyper acts on it
-         ("response-body-end-stream", oo.eos == bodyEos r.body)]
+         -- violation of the property); `is_end_stream` is part of the verdict because hyper acts on it:
+         -- the flag the caller reads is the wrapped body's own (for the plain kinds: "no frames left")
+         ("response-body-end-stream", oo.eos == innerEos r.body)]
       | _, _ => [("response-kind-passed-through", false)]
     input ++ acc ++ frame ++ resp
   | .reject st =>
     let view : List (String × Bool) := match o.out with
-      | .error _ => [("reject-yields-response", false)]
+      | .error _ => [("reject-yields-response", false), ("inner-not-invoked", o.saw.isNone)]
       | .ok oo =>
         Spec.Interceptor.rejectClauses st o.saw.isSome
           { status := oo.resp.status, headers := oo.resp.headers, endStream := oo.eos, frames := frameCount oo.resp.body }
@@ -810,6 +901,10 @@ def handle (case obs : List String) : String × String :=
     (match parseCase case with
      | none => bad
      | some c => (runRoutedModel c, routedVerdict c obs))
+  | "gsrv" :: _ =>
+    (match parseCase case with
+     | none => bad
+     | some c => (runGsrvModel c, specVerdict c obs))
   | _ =>
     match parseCase case with
     | none => bad
